@@ -389,6 +389,9 @@ func (tr *Translator) sel(x tv, name string) tv {
 		_, vs := arrParts(asort)
 		f.enc.declSortOf(vs)
 		if k == len(path)-1 {
+			if isMutex(ft) {
+				return tv{f.p.muAddr(f.enc, addr, cur, idx), types.NewPointer(ft)}
+			}
 			if _, isStruct := structOf(ft); isStruct {
 				// address of nested struct
 				return tv{Add(addr, IntLit(fieldOffset(st, idx))), types.NewPointer(ft)}
